@@ -53,9 +53,11 @@ ROWS: List[Tuple[str, str, Optional[str], str, List[str], Optional[Tuple[str, st
     ("too-complex project expression (argument kind)", VRM, "ProjectNode", "__init__", ["parsed_ops.args", "g:data_algebra.expr_rep.ColumnReference"], None),
     ("function not allowed in project", VRM, "ProjectNode", "__init__", ["parsed_ops.op", "g:data_algebra.expr_rep.fn_names_not_allowed_in_project"], None),
     ("ordered window function in project", VRM, "ProjectNode", "__init__", ["parsed_ops.op", "g:data_algebra.expr_rep.fn_names_that_imply_ordered_windowed_situation"], None),
+    ("row-wise method or operator in project", VRM, "ProjectNode", "__init__", ["parsed_ops.op", "g:data_algebra.expr_rep.fn_names_that_contradict_ordered_windowed_situation"], None),
     ("non-aggregating windowed expression", VRM, "ExtendNode", "__init__", ["parsed_ops", "g:data_algebra.expr_rep.Expression", "partition_by", "order_by"], None),
     ("too-complex windowed expression (extra arguments)", VRM, "ExtendNode", "__init__", ["parsed_ops.args", "g:data_algebra.expr_rep.Value"], None),
     ("too-complex windowed expression (first argument)", VRM, "ExtendNode", "__init__", ["parsed_ops.args", "g:data_algebra.expr_rep.ColumnReference"], None),
+    ("row-wise method or operator in a windowed extend", VRM, "ExtendNode", "__init__", ["parsed_ops.op", "g:data_algebra.expr_rep.fn_names_of_window_functions"], None),
     ("function contradicting an ordered window", VRM, "ExtendNode", "__init__", ["parsed_ops.op", "g:data_algebra.expr_rep.fn_names_that_contradict_ordered_windowed_situation", "order_by"], None),
     ("ordered function without order_by", VRM, "ExtendNode", "__init__", ["parsed_ops.op", "g:data_algebra.expr_rep.fn_names_that_imply_ordered_windowed_situation", "order_by"], None),
     ("join with missing left keys", VRM, "NaturalJoinNode", "__init__", ["on_a", "a.column_names"], ("on_a", "a.column_names")),
